@@ -901,7 +901,7 @@ func c07OnExec(w *c04World, qn, id int, pre, now []c04Snap, run *c04Running) {
 }
 
 func runC07(r *Run) {
-	r.Rule = "queue layouts of 1..10 tasks in the task's queue (+0..2 in a second queue) over 3 hooks x 3 task types x metadata-less tasks x contexts (0..3 per task, unique binding names, groups {\"\",g1,g2} interleaved) x monitor ids x allowFailure; the real combineBindingContextForHook (via verif_export_c07.go) or its exported twin is called for the head task (78%), a task in the middle, with a nil queue, with a task naming another / an absent queue, for a task that is in no queue and names none (what the admission and conversion handlers run; the queue pointer is then GetByName of its empty name, as in taskHandleHookRun; oracle untouched: nothing merged, no queue changed); stop predicate nil / allowFailure-differs / id set; in 55% of the calls 1..3 tasks are appended to the queues by a second goroutine while the combiner is parked between Iterate and Filter; 35% of the cases run a second call after the task's metadata was updated with the first result. Oracle lines (head-of-own-queue calls): returned contexts = Spec.compact of the concatenation in queue order, monitor ids, every queue of the set afterwards. Non-trivial: >= 2 tasks in the queue; distinct = distinct op-line sequences. Plus whole-operator startups (real taskHandleHookRun with generated hooks: grouped/ungrouped Synchronization tasks; oracle: an ungrouped Synchronization runs with its own contexts and the queue is left alone). Thorough adds every layout of a head (3 groups) with <= 4 followers over 6 follower kinds, with and without a concurrent append."
+	r.Rule = "queue layouts of 1..10 tasks in the task's queue (+0..2 in a second queue) over 3 hooks x 3 task types x metadata-less tasks x contexts (0..3 per task, unique binding names, groups {\"\",g1,g2} interleaved) x monitor ids x allowFailure; the real combineBindingContextForHook (via verif_export_c07.go) or its exported twin is called for the head task (78%), a task in the middle, with a nil queue, with a task naming another / an absent queue, for a task that is in no queue and names none (what the admission and conversion handlers run; the queue pointer is then GetByName of its empty name, as in taskHandleHookRun; oracle untouched: nothing merged, no queue changed); stop predicate nil / allowFailure-differs / id set; in 55% of the calls 1..3 tasks are appended to the queues by a second goroutine while the combiner is parked between Iterate and Filter; 35% of the cases run a second call after the task's metadata was updated with the first result. Oracle lines (head-of-own-queue calls): returned contexts = Spec.compact of the concatenation in queue order, monitor ids, every queue of the set afterwards. Non-trivial: >= 2 tasks in the queue; distinct = distinct op-line sequences. Plus whole-operator startups (real taskHandleHookRun with generated hooks: grouped/ungrouped Synchronization tasks; oracle: an ungrouped Synchronization runs with its own contexts and the queue is left alone). Fourth wave: the hook number of a layout stands for one of 10 tables of names that look equal (letter case only, prefix of each other, trailing characters, unicode case pairs, path spellings); queued non-head tasks are probes that report every GetId/GetType/GetMetadata the combiner makes: in 15% of the head calls one task is appended by another goroutine started from inside the k-th such access (k random), so the append lands wherever the combiner reads tasks without the queue lock (and waits where it holds it). Whole-operator cases with events (40 quick / 300 thorough): 2..3 bash hooks whose file names look equal, mostly in one queue, loaded by the real loader, each with 2..3 schedule and 0..2 kubernetes bindings in one of the group layouts schedule-only / kubernetes-only / mixed / two groups / none; layouts of 2..7 tasks are built by the real schedule / kubernetes controllers and the events handler while a run is blocked, 45% of the runs fail (up to twice per task) and are retried, more tasks arrive during runs and back-offs. Oracle `merged` on EVERY execution (first attempt and retries): what the hook found in its context file = Spec.compact of the concatenation in queue order of the contexts, as the hook configuration declares them, of the head, of everything merged into it by earlier attempts and of the following run of the same hook/type; exactly that run left the queue. Thorough adds every layout of a head (3 groups) with <= 4 followers over 6 follower kinds, with and without a concurrent append."
 	// corpus
 	r.One(0, func(c *Case, _ *Rng) {
 		c.Desc = "corpus: interleaved groups, monitor ids, a foreign hook in the middle, concurrent append"
